@@ -76,7 +76,7 @@ PROPS = {
     ),
     "C05": dict(
         module="OrbitModel.Properties.C05",
-        theorems=["Orbit.C05.acknowledged_survive_any_crash", "Orbit.C05.cached_heads_cover_the_log"],
+        theorems=["Orbit.C05.persistence_order_tied_to_go_text", "Orbit.C05.acknowledged_survive_any_crash", "Orbit.C05.cached_heads_cover_the_log"],
         families=[("routes", 100, 3000, 14), ("kv", 40, 1000, 12), ("reload", 40, 1000, 12)],
         corr_fields={"values", "heads", "idx", "len", "local", "remote", "load"},
         nontrivial=lambda lines: any(l.startswith("restarted ") for l in lines) and sum(1 for l in lines if l.startswith("entry ")) >= 2,
@@ -86,7 +86,7 @@ PROPS = {
     ),
     "C06": dict(
         module="OrbitModel.Properties.C06",
-        theorems=["Orbit.C06.index_tracks_replay", "Orbit.C06.index_step", "Orbit.C06.seen_is_listed_before",
+        theorems=["Orbit.C06.view_update_order_tied_to_go_text", "Orbit.C06.index_tracks_replay", "Orbit.C06.index_step", "Orbit.C06.seen_is_listed_before",
                   "Orbit.C06.later_put_wins", "Orbit.C06.later_delete_wins", "Orbit.C06.own_write_listed_last",
                   "Orbit.C06.stale_key_survives", "Orbit.C06.concurrent_updates_never_leave_a_stale_view",
                   "Orbit.C06.unlocked_copy_left_a_stale_view"],
@@ -143,7 +143,7 @@ PROPS = {
     ),
     "C10": dict(
         module="OrbitModel.Properties.C10",
-        theorems=["Orbit.C10.rejected_never_block", "Orbit.C10.valid_entries_of_a_mixed_batch_are_merged", "Orbit.C10.refused_heads_are_never_fetched",
+        theorems=["Orbit.C10.sync_order_tied_to_go_text", "Orbit.C10.rejected_never_block", "Orbit.C10.valid_entries_of_a_mixed_batch_are_merged", "Orbit.C10.refused_heads_are_never_fetched",
                   "Orbit.C10.refused_head_was_fetched_before_the_fix", "Orbit.C10.pinned_tree_blocks_valid"],
         families=[("forge", 150, 4000, 10)],
         corr_fields={"values", "heads", "idx", "len", "sync", "loadq"},
@@ -190,7 +190,7 @@ PROPS = {
     ),
     "C13": dict(
         module="OrbitModel.Properties.C13",
-        theorems=["Orbit.C13.framing_round_trips", "Orbit.C13.save_errors_exactly_when_a_record_is_too_long",
+        theorems=["Orbit.C13.read_order_tied_to_go_text", "Orbit.C13.framing_round_trips", "Orbit.C13.save_errors_exactly_when_a_record_is_too_long",
                   "Orbit.C13.save_errors_or_loads_back", "Orbit.C13.size_guards_tied_to_go_text", "Orbit.C13.snapshot_written_while_the_log_grows_loads_back",
                   "Orbit.C13.save_is_racing_save_at_rest", "Orbit.C13.reordered_reads_would_write_unloadable_snapshots", "Orbit.C13.pinned_tree_wrote_unloadable_snapshot"],
         families=[("snapshot", 60, 1500, 10)],
@@ -227,7 +227,7 @@ PROPS = {
     ),
     "C16": dict(
         module="OrbitModel.Properties.C16",
-        theorems=["Orbit.C16.received_is_prefix_of_emitted", "Orbit.C16.nothing_lost_while_alive",
+        theorems=["Orbit.C16.write_path_order_tied_to_go_text", "Orbit.C16.received_is_prefix_of_emitted", "Orbit.C16.nothing_lost_while_alive",
                   "Orbit.C16.slow_reader_eventually_gets_everything", "Orbit.C16.write_event_not_ahead_of_state",
                   "Orbit.C16.pinned_tree_reorders"],
         families=[("events", 80, 2500, 8)],
@@ -239,7 +239,7 @@ PROPS = {
     ),
     "C17": dict(
         module="OrbitModel.Properties.C17",
-        theorems=["Orbit.C17.every_acknowledged_write_is_recoverable", "Orbit.C17.protocol_invariant", "Orbit.C17.every_returned_write_is_in_the_view",
+        theorems=["Orbit.C17.write_path_order_tied_to_go_text", "Orbit.C17.every_acknowledged_write_is_recoverable", "Orbit.C17.protocol_invariant", "Orbit.C17.every_returned_write_is_in_the_view",
                   "Orbit.C17.unlocked_copy_left_a_stale_view", "Orbit.C17.pinned_tree_loses_acknowledged_write"],
         families=[("concurrent", 60, 1500, 6)],
         corr_fields={"values", "heads", "idx", "len", "local", "load"},
@@ -250,7 +250,7 @@ PROPS = {
     ),
     "C18": dict(
         module="OrbitModel.Properties.C18",
-        theorems=["Orbit.C18.close_is_idempotent", "Orbit.C18.second_close_is_noop", "Orbit.C18.event_channel_always_shuts_down",
+        theorems=["Orbit.C18.close_order_tied_to_go_text", "Orbit.C18.close_is_idempotent", "Orbit.C18.second_close_is_noop", "Orbit.C18.event_channel_always_shuts_down",
                   "Orbit.C18.closed_only_when_done", "Orbit.C18.pinned_tree_leaks_goroutine"],
         families=[("close", 80, 2000, 6), ("events", 30, 600, 6)],
         corr_fields={"afterclose", "values", "load"},
@@ -262,7 +262,7 @@ PROPS = {
     "C19": dict(
         module="OrbitModel.Properties.C19",
         theorems=["Orbit.C19.never_regresses", "Orbit.C19.progress_le_max", "Orbit.C19.at_rest_equals_len",
-                  "Orbit.C19.pinned_tree_max_regresses", "Orbit.C19.tied_to_go_text"],
+                  "Orbit.C19.pinned_tree_max_regresses", "Orbit.C19.tied_to_go_text", "Orbit.C19.status_raised_with_the_append_tied_to_go_text"],
         families=[("status", 80, 2500, 8), ("kv", 40, 1000, 14), ("routes", 40, 1000, 12)],
         corr_fields={"status", "len"},
         nontrivial=nt_any3,
